@@ -9,7 +9,7 @@ import sys
 sys.path.insert(0, os.path.dirname(os.path.dirname(os.path.abspath(__file__))))
 import py2lean  # noqa: E402
 
-N, B, L = py2lean.N, py2lean.B, py2lean.L
+N, B, L, T = py2lean.N, py2lean.B, py2lean.L, py2lean.T
 
 # key -> (path relative to the repo, Lean module name, [functions], per-function configuration)
 MODULES = {
@@ -19,7 +19,8 @@ MODULES = {
         "rescale", "exp_on_interval_between_negative_one_quarter_and_0_excl", "exp_on_negative_values",
         "multiply_by_quantized_multiplier"], {}),
     "numeric_util": ("ethosu/vela/numeric_util.py", "SrcNumericUtil", [
-        "round_up", "round_down", "round_up_divide", "overlaps"], {}),
+        "round_up", "round_down", "round_up_divide", "overlaps", "round_up_to_int", "full_shape"],
+        {"full_shape": {"params": {"shape": L(N)}}}),
     "driver_actions": ("ethosu/vela/driver_actions.py", "SrcDriverActions", [
         "make_da_tag", "emit_cmd_stream_header", "emit_reg_read", "emit_dump_shram"],
         {"emit_cmd_stream_header": {"params": {"data": L(N)}},
@@ -40,14 +41,40 @@ MODULES = {
         "rolling_buffer_shape"],
         {"__wrappers__": ["Shape4D"],
          "rolling_buffer_shape": {"records": ["producer_stripe", "consumer_stripe_input"]}}),
+    "graph_optimiser_util": ("ethosu/vela/graph_optimiser_util.py", "SrcGraphOptimiserUtil", [
+        "needed_total_padding", "calc_explicit_padding"], {}),
+    "shape4d": ("ethosu/vela/shape4d.py", "SrcShape4d", [
+        "Shape4D._clip_len", "Shape4D.clip", "Shape4D.round_up", "Shape4D.div_round_up", "Shape4D.__add__",
+        "Shape4D.__sub__", "Shape4D.__floordiv__", "Shape4D.__mod__", "Shape4D.elements"],
+        dict({"__tuples__": {"Shape4D": "ethosu/vela/shape4d.py"}},
+             **{"Shape4D." + f: {"params": {p: py2lean.NT("Shape4D") for p in ps}} for f, ps in (
+                 ("clip", ("self", "offset", "sub_shape")), ("round_up", ("lhs", "rhs")), ("div_round_up", ("self", "rhs")),
+                 ("__add__", ("self", "rhs")), ("__sub__", ("self", "rhs")), ("__floordiv__", ("self", "rhs")),
+                 ("__mod__", ("self", "rhs")), ("elements", ("self",)))})),
+    "tensor": ("ethosu/vela/tensor.py", "SrcTensor", [
+        "Tensor.get_strides", "Tensor.get_full_shape", "Tensor.storage_size_for_shape"],
+        {"Tensor.get_strides": {"records": ["self"], "opaque": {"self.get_augmented_shape": [L(N)]},
+                                "opaque_targets": {"stride": N}},
+         "Tensor.get_full_shape": {"records": ["self"], "record_lists": ["self.shape"]},
+         "Tensor.storage_size_for_shape": {"records": ["self"], "opaque": {"shape_num_elements": [N]},
+                                           "opaque_targets": {}}}),
     "register_command_stream_util": ("ethosu/vela/register_command_stream_util.py", "SrcRegisterCommandStreamUtil", [
         "shape3d_size", "coords_intersect", "get_offset_block_coords", "get_prev_job_output_volume",
         "get_first_job_input_volume", "get_address", "get_strides", "get_address_range",
         "get_h_ranges", "get_address_ranges_for_area", "ranges_overlap", "range_lists_overlap",
         "get_address_ranges",
-        "check_alignment", "check_size"],
+        "check_alignment", "check_size", "calc_blockdep"],
         {"__tuples__": {"PointXYZ": "ethosu/vela/operation.py", "NpuShape3D": "ethosu/vela/api.py",
                         "NpuAddressRange": "ethosu/vela/api.py"},      # field order is read from the source
+         "calc_blockdep": {
+             "records": ["arch", "prev_op", "npu_op"],
+             "opaque_records": ["prev_block_config", "block_config", "overlapping_fm", "cur_ofm_block", "cur_ofm_rect",
+                                "cur_ifm_rect", "padding", "kernel", "prev_ofm_block", "prev_ofm_rect"],
+             "opaque_fns": {"get_address_ranges": L(py2lean.O(py2lean.NT("NpuAddressRange"))), "has_ifm2": B,
+                            "get_ifm_ofm_block_depth": N,
+                            "get_first_job_input_volume": py2lean.O(T(py2lean.NT("PointXYZ"), py2lean.NT("PointXYZ"), N)),
+                            "get_prev_job_output_volume": py2lean.O(T(py2lean.NT("PointXYZ"), py2lean.NT("PointXYZ"), N)),
+                            "intersects": B}},
          "get_strides": {"records": ["fm"], "record_tuples": {"fm.strides": "NpuShape3D"}},
          "get_address_range": {"records": ["fm", "strides"]},
          "get_h_ranges": {"records": ["fm", "strides"]},
